@@ -12,6 +12,7 @@ Programs == CASE Family = "nest" -> NestFamily(Depth, {2})
               [] Family = "ckpt" -> CkptFamily({2, 3})
               [] Family = "threads2" -> ThreadFamily2
               [] Family = "threads2small" -> ThreadFamily2Small
+              [] Family = "threads2med" -> ThreadFamily2Med
               [] Family = "threads3" -> ThreadFamily3
 VARIABLES emitted,
           sched      \* history: which thread took each step (the schedule handed to the baton scheduler of the replay)
